@@ -2,8 +2,7 @@
 ASSUME_COMMON = ("Trusted: go/ssa front end, SMT solvers' unsat answers, the gvc generator (canaries + cover queries on every run), "
                  "native models of math/big and the standard-library calls listed in the evidence; termination is not proved. ")
 
-claim("C01", "Obligations generated from the real verify path: acceptance by ProofD.VerifyWithChallenge implies the response-size checks "
-      "(every hidden response and the e-response inside the protocol range). Proof holds for all inputs and all map sizes (loop invariant over the map range).",
+claim("C01", "Acceptance by ProofD.VerifyWithChallenge / ProofD.Verify implies: every hidden response and the e-response lie inside the protocol range; no index is both disclosed and hidden; index 0 is never disclosed; every index lies within the key's bases; all mandatory parts are present; the challenge equals the expected one. For all inputs and all map sizes (loop invariants over the map ranges).",
       ASSUME_COMMON + "Not decided: CL-signature soundness (strong RSA / random oracle) - contracts only establish that the verification relation and its side conditions are evaluated.")
 claim("C10", "Hash equality is byte equality; event hashing covers index, parent hash and value; EventList.Verify returning nil on an unverified list implies tail-hash, parent-hash chain and consecutive indices; "
       "Update.Verify implies signature/counter check of the accumulator or a cached accumulator; signed.Verify implies DER shape, no trailing bytes and ECDSA acceptance.",
@@ -20,5 +19,16 @@ claim("C15", "IntHashSha256(x) = os2ip(sha256(x)) relative to the written contra
 claim("C19", "ModPow: result = pow(x,y,m) for y>=0; for y<0 the power of the inverse, or ErrNoModInverse exactly when no inverse exists; result in [0,|m|).",
       ASSUME_COMMON + "math/big.Int.Exp/ModInverse are trusted native models (pow, inv uninterpreted). Other helpers are added when discharged.")
 
-for pid in ["C02", "C03", "C04", "C05", "C06", "C07", "C08", "C09", "C11", "C14", "C16", "C17", "C18", "C20"]:
+claim("C02", "ProofList.Verify returns true only for a non-empty list with as many keys as proofs and matching label count; every proof is checked by VerifyWithChallenge against publicKeys[i] (call-site obligation) and against one expected challenge, so all accepted proofs carry the same challenge value; "
+      "createChallenge hands HashCommit exactly [context, contributions..., nonce] with the caller's signature flag (element-wise call-site obligations); HashCommit hands asn1.Marshal exactly [TRUE]?, count, integers in order; challengeContributions concatenates per-proof contributions computed under publicKeys[i].",
+      ASSUME_COMMON + "Not decided: SHA-256 collision resistance and DER injectivity (premises) - equal digests are not shown to imply equal tuples; the prover side (ChallengeWithRandomizers) is not yet under contract.")
+claim("C03", "ProofList.Verify returns true only if all proofs with the same label (all proofs when no labels are given) have equal secret-key responses, where the response compared is AResponses[0] of a ProofD (index 0 can be neither disclosed nor doubled by a user response after the F2/F3 fixes) and SResponse of a ProofU; loop invariant over the label map, for all list lengths.",
+      ASSUME_COMMON + "Premise (listed in the evidence): an accepted ProofD carries a response for attribute 0. Not decided: extraction of the secret from two transcripts; prover side.")
+claim("C08", "No nil dereference, index out of range, nil-map write, failed type assertion, division by zero or explicit panic is reachable from ProofList.Verify / ProofD.Verify / ProofU.Verify / ProofS.Verify for well-formed keys and any decodable proof list (every pointer nil or valid, arbitrary map keys, nil map values, nil slice members), and acceptance implies the structure predicate; "
+      "whole call graph of the gabi package verification path plus revocation.Proof.SetExpected/ChallengeContributions/VerifyWithChallenge, SignedAccumulator.UnmarshalVerify, signed.Verify/UnmarshalVerify, rangeproof ExtractStructure/VerifyProofStructure, common.ModPow/HashCommit/IntHashSha256.",
+      ASSUME_COMMON + "Trusted contracts (bodies not verified, preconditions verified at call sites): revocation.proofStructure.commitmentsFromProof and rangeproof.ProofStructure.CommitmentsFromProof (string-keyed zkproof lookups). Decodability assumptions: big integers decoded from JSON are non-negative; list elements are distinct objects; caches are empty. JSON/CBOR decoders are external.")
+claim("C11", "A ProofD with a non-revocation part is accepted only if: a hidden response below 2^580 exists and alpha equals it in value; all five responses, C_r, C_u, Nu and the challenge are present; alpha <= B*2^(k'+k''+1); the signed accumulator was verified under pk (or is the cached one) and Nu equals its Nu; the non-revocation challenge equals the expected challenge. revocationAttrIndex returns such an index or -1 when none exists.",
+      ASSUME_COMMON + "Not decided: accumulator soundness; the 'if' direction (honest proofs verify); refresh of prepared commitments (ProofCommit.Update) not yet under contract.")
+
+for pid in ["C04", "C05", "C06", "C07", "C09", "C14", "C16", "C17", "C18", "C20"]:
     na(pid, "contracts for this property are not yet discharged in this round of the build; no check is registered until its obligations run green (see DESIGN.md section 7, build order)")
